@@ -142,6 +142,8 @@ def main(argv=None):
                 lines.append(f"KNOWN-FINDING: property={pid} {k.get('what', rec['name'])}")
             else:
                 n_viol += 1
+                if n_viol > 25:
+                    continue   # counted, but no more replay files / lines than 25 per run
                 path = write_replay(VERIF, pid, rec)
                 lines.append(f"VIOLATION property={pid} replay={path}")
                 lines.append(f"  obligation={rec['name']} cfg={json.dumps(rec['cfg'], default=str)} "
